@@ -11,7 +11,24 @@ What the translator cannot read (stays with the genspec fingerprints of tools/ge
     argument, e.g. a clipped variance, makes the translator refuse);
   * the guard `if bootstraps <= 2 / alpha:` holds a logging call (an expression statement) in its body;
   * `bw = k ** (-1 / 4)` (general power) and the list comprehension of _smooth_samples_by_weight;
-  * p_adjust_bh is a vector algorithm (argsort, accumulate): proved model + correspondence."""
+  * p_adjust_bh is a vector algorithm (argsort, accumulate): proved model + correspondence.
+
+Loop / per-row ties added later (Proofs/FnSegCalcIntervals.v, FnSegCiBoots.v, FnSegIntervalCols.v, FnBintestRow.v,
+FnBintestBH.v; C17_source_* at the end of Props/C17.v): calc_intervals' loop iteration, the whole
+`if bootstraps <= 2 / alpha:` statement (log lines are dropped now), the interval columns of do_segmetrics, do_bintest's
+per-row stores and hit mask, p_adjust_bh's two elementwise statements.  Still not tied: the location / spread loops of
+do_segmetrics (dictionary of callables, np.fromiter(map(...))), the generator expression of `deviations`,
+_smooth_samples_by_weight (general power, list comprehension), _bca_correct_alpha (dead code; general power 1.5, scipy
+ppf/cdf, a comprehension), the `k < 2` early return (returns an array), `alphas = np.array([...])` (array display).
+
+Mutations tried on a scratch copy (each breaks the named Proofs file, i.e. an obligation of C17; none survives):
+  FnSegCalcIntervals `if len(ser):` -> `if len(ser) > 1:` ; `out_vals_lo[i], out_vals_hi[i] = ...` swapped
+  FnSegCiBoots       `bootstraps <= 2 / alpha` -> `<` ; `bootstraps = new_boots` -> `new_boots + 1`
+  FnSegIntervalCols  `segarr["pi_lo"], segarr["pi_hi"] = ...` swapped ; `if "ci" in interval_stats` -> `"pi"` (refused:
+                     fragment not found)
+  FnBintestRow       `p_bintest < alpha` -> `<=` ; -> `~(p_bintest >= alpha)` (differs on NaN) ; `probes = 1` -> `0`
+  FnBintestBH        `float(len(p))` -> `float(len(p) - 1)` ; `np.minimum(1, ...)` -> `np.minimum(2, ...)` ;
+                     `steps * p[by_descend]` -> `steps + p[by_descend]` (refused: the keyed expression is gone)"""
 MODULES = {
     'FnSegmetrics': ('cnvlib/segmetrics.py', [
         dict(name='make_pi_func', coq='fn_pi_pcts', py_params=['alpha'],
@@ -31,5 +48,71 @@ MODULES = {
              fragment=dict(first='p = ', last='p = '),
              params=[('norm.cdf(-np.abs(z))', 'Q', 'phi_neg_abs_z')],
              returns=['p'], ret='Q'),
+    ]),
+    # ---- loop ties (LOOP_TIES_GUIDE) ---------------------------------------------------------------------------------
+    # calc_intervals: ONE ITERATION of `for i, ser in enumerate(bins_log2s):` -- out_vals_lo[i] / out_vals_hi[i] after it:
+    # the two components of func(ser.values, wt.values) (opaque inputs keyed `...[0]` / `...[1]`: unpacking is indexing)
+    # when the segment has bins, else what np.repeat(np.nan, n) put there.  The assertion is a recorded guard.
+    # (Proofs/FnSegCalcIntervals.v: C17_source_calc_step / C17_source_calc_intervals_ci / _pi)
+    'FnSegCalcIntervals': ('cnvlib/segmetrics.py', [
+        dict(name='calc_intervals', coq='fn_calc_step', py_params=['bins_log2s', 'weights', 'func'],
+             loop=dict(first='for i, ser in enumerate(bins_log2s)'),
+             carried=[('out_vals_lo[i]', 'OQ'), ('out_vals_hi[i]', 'OQ')],
+             params=[('i', 'Z'), ('len(ser)', 'Z', 'n_bins'),
+                     ('out_vals_lo[i]', 'OQ', 'init_lo'), ('out_vals_hi[i]', 'OQ', 'init_hi'),
+                     ('weights[ser.index]', 'Z', 'wt_id'),
+                     ('func(ser.values, wt.values)[0]', 'OQ', 'func_lo'),
+                     ('func(ser.values, wt.values)[1]', 'OQ', 'func_hi')],
+             ret=['OQ', 'OQ']),
+    ]),
+    # do_segmetrics: the interval columns, per segment row -- which of calc_intervals' two arrays lands in which column
+    # and under which of the requested interval statistics (the columns' previous entries are inputs).
+    # (Proofs/FnSegIntervalCols.v: C17_source_interval_columns -- the interval part of Model/Segmetrics.v row_assignments)
+    'FnSegIntervalCols': ('cnvlib/segmetrics.py', [
+        dict(name='do_segmetrics', coq='fn_interval_columns',
+             py_params=['cnarr', 'segarr', 'location_stats', 'spread_stats', 'interval_stats', 'alpha', 'bootstraps',
+                        'smoothed', 'skip_low'],
+             fragment=dict(first="if 'ci' in interval_stats", last="if 'pi' in interval_stats"),
+             params=[("'ci' in interval_stats", 'B', 'want_ci'), ("'pi' in interval_stats", 'B', 'want_pi'),
+                     ("calc_intervals(bins_log2s, weights, stat_funcs['ci'])[0]", 'OQ', 'ci_lo_new'),
+                     ("calc_intervals(bins_log2s, weights, stat_funcs['ci'])[1]", 'OQ', 'ci_hi_new'),
+                     ("calc_intervals(bins_log2s, weights, stat_funcs['pi'])[0]", 'OQ', 'pi_lo_new'),
+                     ("calc_intervals(bins_log2s, weights, stat_funcs['pi'])[1]", 'OQ', 'pi_hi_new'),
+                     ("segarr['ci_lo']", 'OQ', 'ci_lo_old'), ("segarr['ci_hi']", 'OQ', 'ci_hi_old'),
+                     ("segarr['pi_lo']", 'OQ', 'pi_lo_old'), ("segarr['pi_hi']", 'OQ', 'pi_hi_old')],
+             returns=["segarr['ci_lo']", "segarr['ci_hi']", "segarr['pi_lo']", "segarr['pi_hi']"],
+             ret=['OQ', 'OQ', 'OQ', 'OQ']),
+    ]),
+    # confidence_interval_bootstrap: the whole `if bootstraps <= 2 / alpha:` statement (the warning is a dropped log
+    # line) -- the number of resamples actually drawn.
+    # (Proofs/FnSegCiBoots.v: C17_source_n_boot -- equals Model/Segmetrics.v n_boot for the exact quotient)
+    'FnSegCiBoots': ('cnvlib/segmetrics.py', [
+        dict(name='confidence_interval_bootstrap', coq='fn_ci_bootstraps',
+             py_params=['values', 'weights', 'alpha', 'bootstraps', 'smoothed'],
+             fragment=dict(first='if bootstraps ', last='if bootstraps '),
+             params=[('bootstraps', 'Z'), ('alpha', 'Q')], returns=['bootstraps'], ret='Z'),
+    ]),
+    # do_bintest, per row: log2 := the residual, probes := 1; the hit mask p_bintest < alpha (a NaN p is no hit).
+    # (Proofs/FnBintestRow.v: C17_source_bintest_row / C17_source_bintest_hits -- Model/Bintest.v bintest_table_with is
+    #  the rows selected by the generated mask, with the generated stores)
+    'FnBintestRow': ('cnvlib/bintest.py', [
+        dict(name='do_bintest', coq='fn_bintest_stores', py_params=['cnarr', 'segments', 'alpha', 'target_only'],
+             fragment=dict(first="cnarr['log2'] = ", last="cnarr['probes'] = "),
+             params=[('resid', 'Q')], returns=["cnarr['log2']", "cnarr['probes']"], ret=['Q', 'Z']),
+        dict(name='do_bintest', coq='fn_bintest_is_sig', py_params=['cnarr', 'segments', 'alpha', 'target_only'],
+             fragment=dict(first="cnarr['p_bintest'] = z_prob(cnarr)", last='is_sig = '),
+             params=[('z_prob(cnarr)', 'OQ', 'p_adjusted'), ('alpha', 'Q')], returns=['is_sig'], ret='B'),
+    ]),
+    # p_adjust_bh, per element of the descending order: steps = float(len(p)) / np.arange(len(p), 0, -1) and the cap
+    # q = np.minimum(1, <running minimum>) (the argsorts and np.minimum.accumulate are array algorithms: the running
+    # minimum enters as an opaque input keyed by its source text, so `steps * p[by_descend]` inside it is pinned).
+    # (Proofs/FnBintestBH.v: C17_source_bh_steps / C17_source_bh_cap / C17_source_bh)
+    'FnBintestBH': ('cnvlib/bintest.py', [
+        dict(name='p_adjust_bh', coq='fn_bh_step_factor', py_params=['p'],
+             fragment=dict(first='steps = ', last='steps = '),
+             params=[('len(p)', 'Z', 'n'), ('np.arange(len(p), 0, -1)', 'Z', 'rank')], returns=['steps'], ret='Q'),
+        dict(name='p_adjust_bh', coq='fn_bh_cap', py_params=['p'],
+             fragment=dict(first='q = np.minimum(', last='q = np.minimum('),
+             params=[('np.minimum.accumulate(steps * p[by_descend])', 'Q', 'running_min')], returns=['q'], ret='Q'),
     ]),
 }
